@@ -14,7 +14,7 @@ the barcode+UMI prefix) and L (lower case bases); the file forms of the input (g
 without a trailing newline, '+name' separator lines); several strategies selected for one run (-use A,B; judged by
 what both readings of the property demand, see oracles.c01_accounting.check_multi); and demux.py as a script over
 its input and option forms (-n below / at / above a chunk and a lane boundary, two lanes, plain / .fq input, the
-LIB_R1 / LIB.R1 / SRR naming forms, every file named twice, --se, --norejects, -hd 1, -use A,B, two libraries, -merge, --ignore, method
+LIB_R1 / LIB.R1 / SRR naming forms, every file named twice, --se, --norejects, -hd 1, -use A,B, -use A,A, two libraries, -merge, --ignore, method
 auto-detection, and the scheduler mode -sched slurm with an sbatch stand-in that runs the generated lane and glue job
 scripts), with the counters of demultiplexing.log compared with the records written.
 Oracle: oracles/c01_accounting.py (the property sentence, by accounting of id tokens; no expected values).
@@ -183,7 +183,7 @@ CLI_MORE = {
     'n-at-chunk-boundary': 'quick', 'n-inside-second-chunk': 'quick', 'two-lanes-n-inside-second-lane': 'quick',
     'plain-fastq': 'quick', 'name-LIB_R1': 'quick', 'single-end': 'quick', 'norejects': 'quick', 'use-two': 'quick',
     'two-libraries': 'quick', 'sched-lane-jobs': 'quick', 'two-lanes-n-at-lane-boundary': 'quick',
-    'args-duplicated': 'quick',
+    'args-duplicated': 'quick', 'use-same-twice': 'quick',
     'n-inside-first-chunk': 'thorough', 'n-above-total': 'thorough', 'two-lanes': 'thorough',
     'fq-gz': 'thorough', 'fq-plain': 'thorough', 'name-LIB.R1': 'thorough',
     'name-SRR': 'thorough', 'single-end-n': 'thorough', 'hd1': 'thorough', 'merge-two-samples': 'thorough',
@@ -506,6 +506,9 @@ def _cli_scenario(how, short):
             word = [('M' if i in (1, 7) else w) for i, w in enumerate(word)]
     elif how == 'use-two':
         sc['strategies'] = [short, 'MSPJIC8U3']
+    elif how == 'use-same-twice':
+        # the same strategy named twice (a wrapper concatenating method lists): it is still ONE selected strategy
+        sc['use_arg'] = f'{short},{short}'
     elif how == 'two-libraries':
         layout = 'two-libraries'
     elif how == 'merge-two-samples':
@@ -607,7 +610,7 @@ def run_cli2(short, how):
         out = os.path.join(d, 'out')
         script = os.path.join(bind.REPO, 'singlecellmultiomics', 'modularDemultiplexer', 'demux.py')
         env = dict(os.environ, PYTHONPATH=bind.REPO)
-        opts = list(sc['opts']) + (['-use', ','.join(sc['strategies'])] if sc['use'] else []) + ['-o', out]
+        opts = list(sc['opts']) + (['-use', sc.get('use_arg') or ','.join(sc['strategies'])] if sc['use'] else []) + ['-o', out]
         if sc['n'] is not None:
             opts += ['-n', str(sc['n'])]
         if sc['sched'] is None:
